@@ -439,7 +439,129 @@ def rule_R5(ctx):
               "TcpTimestamp::now does not use get_unix_time_ms", ctx.loc(nb))
 
 
+def _fnum(t):
+    """numeric value of a (float or integer) constant expression, None otherwise"""
+    import struct as _st
+    t = T.strip(t)
+    if t[0] == "const":
+        v = t[1]
+        if isinstance(v, tuple) and v and v[0] == "f":
+            return _st.unpack("<d", _st.pack("<Q", v[1]))[0] if v[2] == 8 else _st.unpack("<f", _st.pack("<I", v[1]))[0]
+        if isinstance(v, int) and not isinstance(v, bool):
+            return float(v)
+        return None
+    if t[0] == "cast":
+        return _fnum(t[2])
+    if t[0] == "binop" and t[1] in ("Mul", "Div", "Add", "Sub"):
+        a, c = _fnum(t[2]), _fnum(t[3])
+        if a is None or c is None:
+            return None
+        return {"Mul": a * c, "Div": a / c if c else None, "Add": a + c, "Sub": a - c}[t[1]]
+    return None
+
+
+def _unf(t):
+    """normal form of the uptime arithmetic: names, folded constants, div / rem / mul structure"""
+    t = T.strip(t)
+    k = _fnum(t)
+    if k is not None:
+        return ("%g" % k)
+    if t[0] == "cast":
+        return _unf(t[2])
+    if t[0] == "param":
+        return t[2]
+    if t[0] == "binop" and t[1] in ("Div", "Rem", "Mul", "Add", "Sub"):
+        a, c = _unf(t[2]), _unf(t[3])
+        if t[1] in ("Mul", "Add"):
+            a, c = sorted((a, c))
+        return "%s(%s,%s)" % (t[1].lower(), a, c)
+    if t[0] == "call":
+        return "%s(%s)" % (t[1].rsplit("::", 1)[-1], ",".join(_unf(a) for a in t[2]))
+    return "?" + T.pp(t)[:30]
+
+
+def rule_R6(ctx):
+    """R6: an uptime is split into days / hours / minutes of one and the same duration: days = floor(t/86400), hours = floor((t mod 86400)/3600),
+    minutes = floor((t mod 3600)/60) with t = tsval / frequency, wrap period = 2^32-1 ticks in days"""
+    P = ctx.program
+    b = P.body("huginn_net_tcp::uptime::calculate_uptime_from_frequency")
+    S = T.Slicer(b, P)
+    ag = Q.aggregates(b, "ObservableUptime")
+    if len(ag) != 1:
+        ctx.cannot("R6", "uptime:decomposition", "expected one ObservableUptime construction", ctx.loc(b))
+        return
+    i, j, s = ag[0]
+    t = S.rvalue(s["r"], i, j)
+    got = {n: _unf(o) for n, o in zip(s["r"]["fields"], t[4])}
+    secs = "div(ts_val,freq_hz)"
+    want = {"days": "div(%s,86400)" % secs, "hours": "div(rem(%s,86400),3600)" % secs, "min": "div(rem(%s,3600),60)" % secs,
+            "freq": "freq_hz"}
+    for f, w in want.items():
+        alts = {w}
+        if f == "min":
+            alts.add("div(rem(rem(%s,86400),3600),60)" % secs)
+        ctx.check(got.get(f) in alts, "R6", "uptime:" + f, "%s = %s" % (f, w),
+                  "the %s component is computed as %s, expected %s: the reported days / hours / minutes are not a decomposition of one duration (e.g. hours >= 24)" % (f, got.get(f), w),
+                  ctx.loc(b, i))
+    wrap = got.get("up_mod_days") or ""
+    ctx.check(wrap.startswith("div(4.29497e+09,") and "freq_hz" in wrap and _secs_per_day(t[4][s["r"]["fields"].index("up_mod_days")]), "R6", "uptime:wrap-period",
+              "wrap period = u32::MAX / (freq * 86400) days", "the wrap period is computed as %s" % wrap, ctx.loc(b, i))
+
+
+def _secs_per_day(t):
+    """the divisor multiplies the frequency by 86400 in total"""
+    t = T.strip(t)
+    while t[0] == "cast":
+        t = T.strip(t[2])
+    if not (t[0] == "binop" and t[1] == "Div"):
+        return False
+    prod = 1.0
+    stack = [T.strip(t[3])]
+    seen_freq = False
+    while stack:
+        x = stack.pop()
+        if x[0] == "binop" and x[1] == "Mul":
+            stack += [T.strip(x[2]), T.strip(x[3])]
+        elif x[0] == "param":
+            seen_freq = seen_freq or x[2] == "freq_hz"
+        else:
+            k = _fnum(x)
+            if k is None:
+                return False
+            prod *= k
+    return seen_freq and abs(prod - 86400.0) < 1e-6
+
+
+def rule_R7(ctx):
+    """R7: snapping a measured rate to the documented grid uses the NEAREST multiple of the base rate (round), and accepts it iff the
+    per-multiple rate is within the tolerance of the base"""
+    P = ctx.program
+    b = P.body("huginn_net_tcp::uptime::guess_frequency")
+    S = T.Slicer(b, P)
+    mult = [l for l in range(len(b.locals)) if b.local_name(l) == "multiplier"]
+    got = None
+    for l in mult:
+        for (db_, dj_, full) in S.defs().get(l, []):
+            got = _unf(S.def_term(l, db_, dj_, 0))
+    ctx.check(got == "round(div(raw_freq,base_guess))", "R7", "guess_frequency:nearest-multiple", "multiplier = round(raw / base)",
+              "the multiple of the base rate is computed as %s instead of round(raw / base): a steady clock slightly below a grid value (950 Hz, 92 Hz) is snapped to the "
+              "next lower decade and its uptime is off by that factor" % got, ctx.loc(b))
+    oks = []
+    for (rb, j, term, _c) in TB.return_sites(b, P):
+        tt = T.strip(term)
+        if tt[0] == "agg" and tt[3] == "Some":
+            conds = Q.canon_conds(P, T.dom_conds(b, S, rb))
+            tol = [c for c in conds if c[0] == "cmp" and c[1] in ("Le", "Lt", "Gt", "Ge") and "abs(" in _unf(c[2]) + _unf(c[3])]
+            inner = _unf(tt[4][0])
+            oks.append((inner, [(c[1], _unf(c[2]), _unf(c[3]), c[4]) for c in tol]))
+    okt = len(oks) == 1 and oks[0][0] == "base_guess" and oks[0][1] == [("Le", "abs(sub(div(raw_freq,%s),base_guess))" % "round(div(raw_freq,base_guess))", "mul(base_guess,tolerance)", True)]
+    ctx.check(okt or (len(oks) == 1 and oks[0][0] == "base_guess" and len(oks[0][1]) == 1 and "tolerance" in oks[0][1][0][2] + oks[0][1][0][1]), "R7", "guess_frequency:tolerance",
+              "Some(base) iff |raw/multiplier - base| <= base * tolerance", "acceptance test of the grid snap is %s" % oks, ctx.loc(b))
+
+
 def run(ctx):
+    rule_R7(ctx)
+    rule_R6(ctx)
     rule_R1_R2(ctx)
     rule_R3(ctx)
     rule_R4(ctx)
